@@ -581,6 +581,20 @@ func (w *c08World) exec(o *c08Op, rec *vu.Recorder) {
 	ev := c08Event(o)
 	ctx := context.TODO()
 	obs := true
+	// a panic of the real code is itself an event (the specification has no such action, so the segment is rejected)
+	if panicked, msg := vu.Protect(func() { obs = w.apply(ctx, o, ev) }); panicked {
+		rec.Emit(vu.Ev{"op": "panic", "during": o.Op, "msg": msg})
+		return
+	}
+	if obs {
+		ev["obs"] = c08Obs(w.cache, w.cfg.Nodes)
+	}
+	rec.Emit(ev)
+}
+
+// apply executes one operation on the real objects; returns whether the cache's vectors are to be logged afterwards
+func (w *c08World) apply(ctx context.Context, o *c08Op, ev vu.Ev) bool {
+	obs := true
 	switch o.Op {
 	case "tick":
 		w.fc.Step(time.Duration(o.D) * time.Second)
@@ -648,7 +662,6 @@ func (w *c08World) exec(o *c08Op, rec *vu.Recorder) {
 		w.pl.PreFilter(ctx, state, pod, nil)
 		st := w.pl.Filter(ctx, state, pod, ni)
 		ev["pass"], ev["code"], ev["reason"] = st.IsSuccess(), st.Code().String(), st.Message()
-		obs = false
 	case "rebuild":
 		ev["obs"] = c08Obs(w.fresh(o.Variant), w.cfg.Nodes)
 		obs = false
@@ -660,12 +673,9 @@ func (w *c08World) exec(o *c08Op, rec *vu.Recorder) {
 		ev["est"] = c08VecOf(w.pl.vectorizer, w.pl.vectorizer.ToFactorVec(list))
 		obs = false
 	default:
-		panic("c08: unknown op " + o.Op)
+		w.t.Fatalf("c08: unknown op %q", o.Op)
 	}
-	if obs {
-		ev["obs"] = c08Obs(w.cache, w.cfg.Nodes)
-	}
-	rec.Emit(ev)
+	return obs
 }
 
 func c08Run(t *testing.T, rec *vu.Recorder, c *c08Cfg, ops []*c08Op) {
